@@ -4,7 +4,7 @@ import ast
 from ..loader import norm, AnalysisError
 from ..effects import Engine
 from .. import legs as lg
-from ..legs import LegError, TVal
+from ..legs import LegError, LegUnknown, TVal
 from ..legs_interp import LegInterp, TupleVal
 from .C11 import run_block, bounds_rule
 from . import legrules as lr
@@ -23,6 +23,8 @@ def split_tensor_rules(chk, repo, rid):
             it = LegInterp(fi, env, consts={'svd_distr': distr}, repo=repo)
             out = it.run()
         except LegError as ex:
+            if isinstance(ex, LegUnknown):
+                raise           # not understood is not a finding
             chk.ob(rid, where(repo, fi, fi.node), f'split_mps_tensor(svd_distr={distr!r}): body is well-formed in the leg domain',
                    False, str(ex), key=f'{rid}|{distr}|wellformed')
             n += 1
@@ -45,6 +47,8 @@ def split_tensor_rules(chk, repo, rid):
                 not c['pairs'] and not [o for o in red.net.occs if o.kind != 'param'] and not red.net.weights
             detail = '; '.join(problems) or f'open {c["open"]}, pairs {c["pairs"]}'
         except LegError as ex:
+            if isinstance(ex, LegUnknown):
+                raise           # not understood is not a finding
             ok, detail = False, str(ex)
         chk.ob(rid, w, f'split_mps_tensor({distr!r}): the two tensors contracted over the new bond give back the input '
                f'(singular values enter with total exponent 1)', ok, detail, key=f'{rid}|{distr}|gauge')
@@ -58,6 +62,8 @@ def split_tensor_rules(chk, repo, rid):
             ok2 = not pr2 and c2['open'] == [('A.0a', 'A.0b'), ('A.1',), ('A.2',)] and not c2['pairs']
             d2 = f'open {c2["open"]}'
         except LegError as ex:
+            if isinstance(ex, LegUnknown):
+                raise           # not understood is not a finding
             ok2, d2 = False, str(ex)
         chk.ob(rid, w, f'split_mps_tensor({distr!r}) followed by merge_mps_tensor_pair reproduces the layout of the input',
                ok2, d2, key=f'{rid}|{distr}|merge-undoes-split')
